@@ -8,7 +8,7 @@
    "the primitive the factory stores for entry e accepts the whole input x";
    every theorem holds for all such predicates, all keysets and all inputs. *)
 From Coq Require Import List NArith Bool.
-From Tink Require Import Bytes Manager ManagerProofs Prefix Factory FactoryProofs.
+From Tink Require Import Bytes Manager ManagerProofs ManagerProofs2 Prefix Factory FactoryProofs FactoryProofs2.
 Import ListNotations.
 Open Scope N_scope.
 
@@ -229,6 +229,37 @@ Proof.
     + intros e A B1 C D E. rewrite (accept_prefixed valid ks x e WK A B1 C D E). auto.
 Qed.
 Print Assumptions C05_rotation_then_accept.
+
+
+(* Across key rotation, between two handles of ONE manager: x was valid under key e1 of the
+   keyset at the time of the first handle (non-RAW, so x carries e1's prefix).  After ANY
+   further history on that manager (no NewManagerFromHandle), the primitive of the later
+   keyset (a) accepts x, and with the entry of that very key, if the key is still there and
+   ENABLED; (b) rejects x if the key was deleted, disabled or destroyed - unless another
+   enabled key of the later keyset accepts it.  cls/leg (prefix variant, legacy flag) and
+   validity depend on the key object only; ids are never re-assigned (C11). *)
+Theorem C05_rotation_between_two_handles :
+  forall (cls : entry -> ptype) (leg : entry -> bool),
+    (forall a b, kp a = kp b -> cls a = cls b /\ leg a = leg b) ->
+  forall (valid : fentry -> bytes -> bool),
+    (forall a b y, same_key a b -> valid a y = valid b y) ->
+  forall ops s e1 x,
+    SInv s -> Forall (fun o => forall k, o <> OFromHandle k) ops ->
+    In e1 (ents (smgr s)) ->
+    fraw (lift cls leg e1) = false ->
+    prefix_of (lift cls leg e1) = firstn nonraw_prefix_size x ->
+    valid (lift cls leg e1) x = true ->
+    let l2 := ents (smgr (fst (run s ops))) in
+    wf_handle l2 -> ents_bounded l2 ->
+    let ks2 := map (lift cls leg) l2 in
+    (forall e2, In e2 l2 -> eid e2 = eid e1 -> est e2 = Enabled ->
+                accept valid ks2 x = Some (lift cls leg e2)) /\
+    ((forall e2, In e2 l2 -> eid e2 = eid e1 -> est e2 <> Enabled) ->
+     (forall e, In e l2 -> eid e <> eid e1 -> est e = Enabled -> valid (lift cls leg e) x = false) ->
+     accept valid ks2 x = None).
+Proof. exact rotation_between_handles. Qed.
+Print Assumptions C05_rotation_between_two_handles.
+
 
 (* Non-vacuity: a concrete well-formed keyset (TINK id 5 primary, CRUNCHY id 5
    impossible next to it so CRUNCHY id 7, a disabled TINK key, a RAW key), a
